@@ -1,7 +1,8 @@
 (* C07 (process level) - proofs about the data-error roles of the fatal-exit state machine
    (IoFail/DataFail.v on top of IoFail/IoFailModel.v).
 
-   Method (the one of IoFailProofs.v): for every regenerated call site and both positions of
+   Method (the one of IoFailProofs.v; the generic lemmas are in DataFailGeneric.v so that this
+   file does not depend on C21's finite check): for every regenerated call site and both positions of
    the main thread, the reachable core states under ALL interleavings of the failing thread,
    the main thread and the abstracted pipeline events form a finite set enumerated by the
    untrusted [explore]; [closedb] re-checks closure under every event and [dgood] is evaluated
@@ -12,7 +13,7 @@
    the logging macro, bailout() or halt() re-opens exactly these obligations. *)
 From Coq Require Import List NArith Bool String Arith Lia.
 From LBZ Require Import Gen.IoFailTab Gen.DataFailTab Gen.Consts Gen.ErrTab
-     IoFail.IoFailModel IoFail.IoFailProofs IoFail.DataFail.
+     IoFail.IoFailModel IoFail.DataFailGeneric IoFail.DataFail.
 From LBZ Require Dec.Prog Dec.ErrMap.
 Import ListNotations.
 Local Open Scope N_scope.
@@ -120,14 +121,18 @@ Proof.
     + pose proof (dgood_env_mono c e k ev (Hg k Hin) (not_own_In ev Ho)). lia.
 Qed.
 
-Lemma dcheck_bounded : forall c e k0, dcheck c e k0 = true ->
+Lemma dcheck_set_bounded : forall c e k0 S, dcheck_set c e k0 S = true ->
   forall sch, (own_effective c e k0 sch + mu c (run_core c e k0 sch) <= mu c k0)%nat.
 Proof.
-  intros c e k0 H sch. unfold dcheck, dcheck_set in H.
+  intros c e k0 S H sch. unfold dcheck_set in H.
   apply andb_true_iff in H. destruct H as [H Hgood].
   apply andb_true_iff in H. destruct H as [Hinit Hclosed].
   eapply dbounded_generic; eauto. apply memb_In. assumption.
 Qed.
+
+Lemma dcheck_bounded : forall c e k0, dcheck c e k0 = true ->
+  forall sch, (own_effective c e k0 sch + mu c (run_core c e k0 sch) <= mu c k0)%nat.
+Proof. intros c e k0 H. unfold dcheck in H. exact (dcheck_set_bounded c e _ _ H). Qed.
 
 (* ------------------------------------------------------------------ *)
 (* the regenerated tables                                               *)
@@ -278,26 +283,45 @@ Definition text_for (s : data_site) (e : err) : option string :=
   | None => site_message s 0
   end.
 
+Definition is_notbz (e : err) : bool := match e with ErrNotBzip2 => true | _ => false end.
+
 Definition codec_linkb (e : err) : bool :=
   match site_for e, message e with
   | Some s, Some em =>
     nonempty em &&
     match text_for s e with
-    | Some t => nonempty t &&
-                match e with
-                | ErrNotBzip2 => String.eqb t em
-                | _ => String.eqb t (fill (ds_fmt s) [em])
-                end
+    | Some t => nonempty t && String.eqb t (if is_notbz e then em else fill (ds_fmt s) [em])
     | None => false
     end
   | _, _ => false
   end.
 
+Lemma find_main : forall s, find on_main data_sites = Some s -> In s data_sites /\ on_main s = true.
+Proof. intros s H. apply find_some in H. exact H. Qed.
+
+Lemma find_worker : forall code s,
+  find (fun s => negb (on_main s) && site_admits s code) data_sites = Some s ->
+  In s data_sites /\ on_main s = false.
+Proof.
+  intros code s H. apply find_some in H. destruct H as [Hi Hp]. split; [exact Hi|].
+  apply andb_true_iff in Hp. destruct Hp as [Hp _]. destruct (on_main s); [discriminate|reflexivity].
+Qed.
+
+Lemma site_for_in : forall e s, site_for e = Some s -> In s data_sites /\ on_main s = is_notbz e.
+Proof.
+  intros e s H. unfold site_for in H.
+  destruct e; cbv beta iota in H; cbn [is_notbz];
+    try (apply find_main; exact H);
+    (destruct (code_of_err _) as [code|]; [apply (find_worker code); exact H | discriminate]).
+Qed.
+
+(* every codec-level error has its site, and the text printed there is the site's format
+   filled with the codec-level diagnostic [message e] of Dec/ErrMap.v *)
 Lemma codec_link : forall e, e <> ErrFuel -> e <> ErrTable ->
-  exists s em t, site_for e = Some s /\ In s data_sites /\ message e = Some em /\ em <> ""%string
+  exists s em t, site_for e = Some s /\ In s data_sites /\ on_main s = is_notbz e
+    /\ message e = Some em /\ em <> ""%string
     /\ text_for s e = Some t /\ t <> ""%string
-    /\ (e = ErrNotBzip2 -> on_main s = true /\ t = em)
-    /\ (e <> ErrNotBzip2 -> on_main s = false /\ t = fill (ds_fmt s) [em]).
+    /\ t = (if is_notbz e then em else fill (ds_fmt s) [em]).
 Proof.
   intros e H1 H2.
   assert (Hb : codec_linkb e = true) by (destruct e; try congruence; vm_compute; reflexivity).
@@ -307,19 +331,10 @@ Proof.
   apply andb_true_iff in Hb. destruct Hb as [Hem Hb].
   destruct (text_for s e) as [t|] eqn:Et; [|discriminate].
   apply andb_true_iff in Hb. destruct Hb as [Ht Hb].
-  assert (Hin : In s data_sites /\ (e = ErrNotBzip2 -> on_main s = true) /\ (e <> ErrNotBzip2 -> on_main s = false)).
-  { unfold site_for in Es. destruct e; try congruence;
-      try (destruct (code_of_err _) as [code|]; [|discriminate]);
-      apply find_some in Es; destruct Es as [Hi Hp];
-      (split; [exact Hi|]); (split; [intros; try congruence; try exact Hp | intros Hn; try congruence]);
-      apply andb_true_iff in Hp; destruct Hp as [Hp _]; destruct (on_main s); [discriminate|reflexivity]. }
-  destruct Hin as [Hin [Hm1 Hm2]].
+  destruct (site_for_in e s Es) as [Hin Hm].
   exists s, em, t. repeat split; try assumption; try reflexivity;
     try (apply nonempty_spec; assumption).
-  - apply Hm1; assumption.
-  - subst e. apply String.eqb_eq. exact Hb.
-  - apply Hm2; assumption.
-  - destruct e; try congruence; apply String.eqb_eq; exact Hb.
+  apply String.eqb_eq. exact Hb.
 Qed.
 
 (* ------------------------------------------------------------------ *)
@@ -354,6 +369,15 @@ Proof.
   destruct (data_message s code Hin Hr Ha) as [msg [Hm [Hne Hshape]]].
   exists msg. repeat split; try assumption.
   intros pname sep fsname. eexists. apply render_line_some. exact Hm.
+Qed.
+
+(* the part that does not mention the error code *)
+Lemma data_final : forall s main_suspended others sch o, In s data_sites ->
+  k_res (s_core (run_data s main_suspended others sch)) = Some o ->
+  o = Exited 1 /\ k_printed (s_core (run_data s main_suspended others sch)) = 1.
+Proof.
+  intros s sp others sch o Hin Hres.
+  exact (dgood_final _ _ _ o (gen_dgood s sp others sch Hin) Hres).
 Qed.
 
 Lemma data_no_stuck : forall s main_suspended others sch, In s data_sites ->
@@ -444,7 +468,7 @@ Qed.
    lock and goes back to work; the process is still there and can complete *)
 Lemma warn_call_not_fatal :
   let e := data_fenv gen_cfg in
-  let k := run_core gen_cfg e (data_init_core false warn_ops false) (repeat EvF 8) in
+  let k := run_core gen_cfg e (data_init_core false warn_ops false) (repeat EvF 10) in
   k_res k = None /\ k_f k = FLive /\ k_printed k = 1 /\ k_lock k = None
   /\ k_res (run_core gen_cfg e k [EvMain; EvOthersDone; EvFDone; EvComplete; EvMain; EvMain])
      = Some (Exited EX_OK).
@@ -455,7 +479,7 @@ Proof. vm_compute. repeat split. Qed.
 (* ------------------------------------------------------------------ *)
 Definition worker_site_with (ops : list op) : data_site :=
   mk_data_site "src/expand.c" "do_reorder" "failf" ThWorkerTask ops false true true true
-               "compressed data error: %s" (ArgVar "oblk->status") [] true.
+               "compressed data error: %s" (ArgVar "oblk->status") [] [].
 
 (* a data-error site that warns instead of failing: rejected (the thread goes on, the
    pipeline completes, exit status 0/4 is reachable) *)
@@ -470,15 +494,6 @@ Lemma return_after_log_rejected_data :
 Proof. vm_compute. reflexivity. Qed.
 
 (* bailout() of the main thread exiting with status 0 *)
-Definition with_bail_main (c : cfg) (ops : list op) : cfg :=
-  {| c_blocked := c_blocked c; c_cli_blocks := c_cli_blocks c; c_cli_handlers := c_cli_handlers c;
-     c_saved_ok := c_saved_ok c; c_halt_cases := c_halt_cases c; c_halt_default := c_halt_default c;
-     c_bail_main := ops; c_bail_sub := c_bail_sub c; c_prologue := c_prologue c; c_logc := c_logc c;
-     c_log_ops := c_log_ops c; c_nobail := c_nobail c; c_bail_tail := c_bail_tail c;
-     c_xread_err := c_xread_err c; c_xwrite_err := c_xwrite_err c; c_ex_ok := c_ex_ok c;
-     c_complete_sig := c_complete_sig c; c_sigpipe := c_sigpipe c; c_sigxfsz := c_sigxfsz c;
-     c_epipe := c_epipe c; c_efbig := c_efbig c |}.
-
 Lemma exit0_rejected :
   let c := with_bail_main gen_cfg [OpCleanup; OpUnblock blocked_signals; OpExit 0] in
   dcheck c (data_fenv c) (data_init (worker_site_with [OpFail true false]) true) = false.
